@@ -222,16 +222,15 @@ def Switch.apply (f : Flags) (u : UsageParams) : Switch → UsageParams
 def plainArgs (args : List Arg) : List Arg := args.filter fun a => a.subGroup.isNone
 /-- `Handler::mSubGroupArgs` -/
 def subGroupArgs (args : List Arg) : List Arg := args.filter fun a => a.subGroup.isSome
-/-- the container an argument is stored in, next to those already there -/
-def sameContainer (a : Arg) (args : List Arg) : List Arg :=
-  if a.subGroup.isSome then subGroupArgs args else plainArgs args
-
 /-- `Handler::addArgument()` followed by the chained modifiers.  A rejected key leaves the handler
     unchanged; a rejected modifier leaves the argument defined with what was applied before.
-    The key is checked against the container the argument goes into only: `mArguments` and `mSubGroupArgs`
-    are two `Storage` objects (as coded, a plain argument and a sub-group argument may have the same key). -/
+    The key is checked against BOTH containers of the handler (as repaired in `/repo`:
+    `ArgumentContainer::addArgument( …, also_check)` - the container the argument goes into by
+    `Storage::addArgument()`, the other one by `checkKeyUnused()`; the unchanged tree checked the own
+    container only, so a plain argument and a sub-group argument could have the same key): the key
+    must not equal or mismatch the key of any argument defined so far. -/
 def Handler.addArgument (h : Handler) (a : Arg) (mods : List Mod) : Handler × Option Exc :=
-  if !storageAccepts (sameContainer a h.args) a.key then (h, some .invalid_argument)
+  if !storageAccepts h.args a.key then (h, some .invalid_argument)
   else
     let r := applyMods a mods
     ({ h with args := h.args ++ [r.1] }, r.2)
